@@ -38,6 +38,31 @@ Definition m_to_integer (d : Z) : Z :=
                     if t =? 0 then sign_bit neg else of_rat neg t 1
   end.
 
+(* ---------- evaluate.go evaluateDivide ---------- *)
+
+Definition is_inf (d : Z) : bool := match decode d with DInf _ => true | _ => false end.
+
+(* Go's float64 division on two finite, non-zero operands: the correctly rounded quotient *)
+Definition go_div_finite (a b : Z) : Z :=
+  match decode a, decode b with
+  | DFin n1 m1 e1, DFin n2 m2 e2 =>
+      let d := e1 - e2 in
+      if 0 <=? d then of_rat (xorb n1 n2) (m1 * 2 ^ d) m2
+      else of_rat (xorb n1 n2) m1 (m2 * 2 ^ (- d))
+  | _, _ => nan_bits
+  end.
+
+(* the cascade of special cases, in the order of the source *)
+Definition m_divide (l r : Z) : Z :=
+  if is_nan l || is_nan r then nan_bits
+  else if is_inf l && is_inf r then nan_bits
+  else if is_zero l && is_zero r then nan_bits
+  else if is_inf l then (if Bool.eqb (is_neg l) (is_neg r) then pinf_bits else ninf_bits)
+  else if is_inf r then (if Bool.eqb (is_neg l) (is_neg r) then 0 else nzero_bits)
+  else if is_zero r then (if Bool.eqb (is_neg l) (is_neg r) then pinf_bits else ninf_bits)
+  else if is_zero l then sign_bit (xorb (is_neg l) (is_neg r))   (* 0 / finite non-zero in hardware *)
+  else go_div_finite l r.
+
 (* ---------- value_number.go parseNumber ---------- *)
 
 Definition lower (c : Z) : Z := if (65 <=? c) && (c <=? 90) then c + 32 else c.
